@@ -190,6 +190,11 @@ type TCPConn struct {
 	Linger       int
 	lingerSet    bool
 	onClose      func() // client side: gives the descriptor back
+	// sched: operations on this connection are scheduling points.  False for connections dialled by
+	// a goroutine outside the scheduler (the HTTP transport): such a connection is used below
+	// net/http and crypto/tls, which call Read / Write / Close while holding their own sync.Mutex;
+	// parking there would block another goroutine on that mutex non-durably and freeze the bubble.
+	sched bool
 }
 
 var _ net.Conn = (*TCPConn)(nil)
@@ -206,8 +211,10 @@ func opErr(op string, c *TCPConn, err error) error {
 }
 
 func (c *TCPConn) Read(p []byte) (int, error) {
-	simrt.Pre("tcp.read")
-	defer simrt.Post()
+	if c.sched {
+		simrt.Pre("tcp.read")
+		defer simrt.Post()
+	}
 	if len(p) == 0 {
 		return 0, nil
 	}
@@ -290,8 +297,10 @@ func (c *TCPConn) Read(p []byte) (int, error) {
 }
 
 func (c *TCPConn) Write(p []byte) (int, error) {
-	simrt.Pre("tcp.write")
-	defer simrt.Post()
+	if c.sched {
+		simrt.Pre("tcp.write")
+		defer simrt.Post()
+	}
 	total := 0
 	for len(p) > 0 {
 		c.mu.Lock()
@@ -583,6 +592,8 @@ func (d *Dialer) DialContext(ctx context.Context, network, address string) (net.
 	}
 	c, s := pair(n.BufCap, "10.255.255.1:40000", address)
 	c.onClose = release
+	c.sched = simrt.IsScheduled()
+	s.sched = c.sched
 	n.mu.Lock()
 	dead := n.dead
 	n.all = append(n.all, c, s)
